@@ -331,6 +331,11 @@ func (c *xsyncMapOf[K, V]) GetAndDelete(k K) (V, bool) {
 	if ec != nil {
 		ec(k, i.v)
 	}
+	if i.expired() {
+		// removed, but an expired value is never returned
+		var v V
+		return v, false
+	}
 	return i.v, true
 }
 
